@@ -101,6 +101,7 @@ func (p *Prog) attrLiterals(reach map[*ssa.Function]bool) []*attrLit {
 func runC04(c *Ctx) {
 	p := c.P
 	const P = "C04"
+	runC04ChmodKeepsType(c, P)
 	// the node behind a handle remembers the object's type: a re-created name must get the new node (borrowed from C05)
 	{
 		saved := c.Only
